@@ -102,7 +102,12 @@ def ret_may_be_zero(e, st):
         if ("nz", x["n"]) in st:
             return False
         return True
+    if isinstance(x, dict) and x.get("k") == "call" and x.get("f") in _NONZERO_HINT:
+        return False
     return True
+
+
+_NONZERO_HINT = {"ldb_system_error"}
 
 
 def ret_may_be_nonzero(e, st):
@@ -247,14 +252,17 @@ def check_automaton(ctx, rule, instance, fn, q0, step, edge=None, what="", P=Non
     return True
 
 
+DEAD = "DEAD"
+
+
 def must_pass_before_success(ctx, rule, instance, fn, start, passing, what, success=ret_may_be_zero,
-                             keep_calls=(), P=None, edge_pass=None, reset=None):
+                             keep_calls=(), P=None, edge_pass=None, reset=None, edge_dead=None):
     """T1: on every feasible path from an event matching `start` (None =
     function entry) to a success return, an event matching `passing` occurs.
     edge_pass(literal) -> True lets a branch edge discharge the obligation
     (e.g. the false edge of `options->sync`).  reset(e) re-arms."""
     def step(q, e, st, b, i):
-        if q == BAD:
+        if q == BAD or q == DEAD:
             return q
         if q == 0 and start is not None and start(e):
             q = 1
@@ -269,6 +277,9 @@ def must_pass_before_success(ctx, rule, instance, fn, start, passing, what, succ
         return q
 
     def edge(q, lit):
+        if q == 1 and edge_dead is not None and lit is not None and lit[0] not in ("case", "default"):
+            if edge_dead(lit):
+                return DEAD       # infeasible by a separately checked idiom
         if q == 1 and edge_pass is not None and lit is not None and lit[0] not in ("case", "default"):
             if edge_pass(lit):
                 return 2
@@ -362,3 +373,143 @@ def sequences_from(fn, b0, i0, item, stop_event=None, stop_blocks=(), limit=64):
         memo[k] = res
         return res
     return go(b0, i0 + 1)
+
+
+def ordered_before_success(ctx, rule, instance, fn, seq, what, start=None, success=ret_may_be_zero,
+                           keep_calls=(), P=None):
+    """T1: every feasible path from `start` (None = entry) to a success return
+    has passed events matching seq[0], seq[1], ... in this order (other
+    events may lie between; an earlier element seen again does not reset)."""
+    n = len(seq)
+
+    def step(q, e, st, b, i):
+        if q == BAD:
+            return q
+        if q == -1:
+            if start(e):
+                q = 0
+            else:
+                return q
+        if q < n and seq[q](e):
+            q += 1
+        if e["e"] == "ret" and 0 <= q < n and success(e, st):
+            return BAD
+        return q
+    q0 = -1 if start is not None else 0
+    return check_automaton(ctx, rule, instance, fn, q0, step, None, what, P, keep_calls)
+
+
+def call_ok_dominates(ctx, rule, instance, fn, ev, callee, what, P=None):
+    """The event is reachable only on paths where the last execution of a call
+    to `callee` returned 0 (LDB_OK), i.e. the status test really refers to
+    that call and not to a later overwrite."""
+    b, i, e = ev
+    g = xgraph(P or ctx.P, fn, keep_calls=(callee,))
+    ids = {x["id"] for bb, ii, x in fn.events("call") if is_call(x, callee)}
+    ctx.require(ids, "anchor vanished: %s no longer calls %s" % (fn.name, callee))
+    ok = True
+    seen = 0
+    for n in g.nodes_of_block(b):
+        st = g.state_before(n, i)
+        seen += 1
+        if not any(("cz", cid) in st for cid in ids):
+            ok = False
+    if seen == 0:
+        ok = True
+    ctx.check(ok, rule, instance, fn.name, site(fn, e),
+              "%s only after %s returned LDB_OK (%d path states)" % (what, callee, seen),
+              "%s is reachable although %s did not (provably) return LDB_OK" % (what, callee))
+    return ok
+
+
+def not_under_edges(ctx, rule, instance, fn, edge_seq, target, reset, what, P=None):
+    """No feasible path takes branch edges matching edge_seq[0..] in order
+    (each a predicate on (cond tree, polarity)) and then reaches an event
+    matching `target` before an event matching `reset`."""
+    n = len(edge_seq)
+
+    def step(q, e, st, b, i):
+        if q == BAD:
+            return q
+        if q == n and target(e):
+            return BAD
+        if reset is not None and reset(e):
+            return 0
+        return q
+
+    def edge(q, lit):
+        if q == BAD or lit is None or lit[0] in ("case", "default"):
+            return q
+        if q < n and edge_seq[q](lit[0], lit[1]):
+            return q + 1
+        return q
+    return check_automaton(ctx, rule, instance, fn, 0, step, edge, what, P)
+
+
+def truth_of(cond, pol, wanted_key):
+    """If cond (with polarity) is `wanted_key` possibly under negations,
+    returns the truth value it gives wanted_key on this edge, else None."""
+    c = strip_casts(cond)
+    while isinstance(c, dict) and c.get("k") == "un" and c.get("op") == "!":
+        pol = not pol
+        c = strip_casts(c["x"])
+    if isinstance(c, dict) and c.get("k") == "bin" and c.get("op") in ("!=", "==") :
+        l, r = strip_casts(c["l"]), strip_casts(c["r"])
+        if is_zero(r) and key(l) == wanted_key:
+            return pol if c["op"] == "!=" else (not pol)
+        if is_zero(l) and key(r) == wanted_key:
+            return pol if c["op"] == "!=" else (not pol)
+        return None
+    if key(c) == wanted_key:
+        return pol
+    return None
+
+
+def stores_of_field_in_program(P, struct, field):
+    """All (function, b, i, event) storing to struct.field anywhere."""
+    out = []
+    for f in P.all_functions:
+        for b, i, e in f.events():
+            if e["e"] == "asg":
+                l = strip_casts(e["lhs"])
+            elif e["e"] == "inc":
+                l = strip_casts(e["x"])
+            else:
+                continue
+            if isinstance(l, dict) and l.get("k") == "mem" and l["f"] == field and _rec_eq(l.get("s"), struct):
+                out.append((f, b, i, e))
+    return out
+
+
+def must_cross_edge_before(ctx, rule, instance, fn, ok_edge, target, what, reset=None, P=None):
+    """T2 (disjunctive form): every feasible path reaching an event matching
+    `target` has crossed, since the last `reset` event (or entry), a branch
+    edge accepted by ok_edge(cond, polarity).  Unlike a must-literal set this
+    accepts `a || b` guards, where no single literal holds on all paths."""
+    def step(q, e, st, b, i):
+        if q == BAD:
+            return q
+        if target(e) and q == 0:
+            return BAD
+        if reset is not None and reset(e):
+            return 0
+        return q
+
+    def edge(q, lit):
+        if q == BAD or lit is None or lit[0] in ("case", "default"):
+            return q
+        if ok_edge(lit[0], lit[1]):
+            return 1
+        return q
+    return check_automaton(ctx, rule, instance, fn, 0, step, edge, what, P)
+
+
+def cmp_edge(cond, pol, lhs_key, op, value):
+    """Does the branch edge (cond, pol) establish `lhs_key op value` (integer
+    constant), by interval implication?"""
+    from .paths import norm_literal
+    for a in norm_literal(cond, pol):
+        for ho, ha, hb in (a, (MIRROR[a[0]], a[2], a[1])):
+            if ha == lhs_key and _num(hb) is not None and _const_implies(ho, _num(hb), op, value):
+                return True
+    return False
